@@ -73,6 +73,22 @@ AREAS = [
         dict(name='checkable_get_downtime_depth', func='Checkable::GetDowntimeDepth', file='lib/icinga/checkable-downtime.cpp', props=['C05'],
              inputs=[('now', 'Z'), ('downtimes', 'list dt')], ret='Z',
              lists={'GetDowntimes()': ('downtimes', 'dt')}, bind={'downtime->IsInEffect()': (DT_ELEM, 'bool')}),
+        # ---- C05 stretch: an imperative block with setter calls -> state-passing function (old state -> new state, events)
+        dict(glue='downtime_events', props=['C05'], deps=[], doc='effects of Downtime::TriggerDowntime other than attribute writes, in program order',
+             text='Inductive xdt_ev := XeArmCleanup | XeTriggerChild (name : Z) (t : Z) | XeTriggered.\n'),
+        dict(name='downtime_trigger_downtime', func='Downtime::TriggerDowntime', file='lib/icinga/downtime.cpp', props=['C05'],
+             inputs=DT_IN + [('t', 'Z'), ('triggers', 'list Z'), ('dt_exists', 'Z -> bool')], ret='void',
+             dummy='(0, nil)',
+             params={'triggerTime': Zb('t')},
+             state=[('$trigger_time', 'trigger_time', 'Z'), ('$events', '(@nil xdt_ev)', 'list xdt_ev')],
+             getters={'GetTriggerTime()': '$trigger_time'}, setters={'SetTriggerTime': '$trigger_time'},
+             emits={'SetupCleanupTimer': ('$events', 'XeArmCleanup', []),
+                    'downtime->TriggerDowntime': ('$events', 'XeTriggerChild triggerName {0}', ['Z']),
+                    'OnDowntimeTriggered': ('$events', 'XeTriggered', [None])},
+             lists={'GetTriggers()': ('triggers', 'Z')},
+             fns={'Downtime::GetByName': ('dt_exists', ['Z'], 'ptr')},
+             bind=dict({k: v for k, v in DT_BIND.items() if k != 'GetTriggerTime()'},
+                       **{'CanBeTriggered()': ('src_downtime_can_be_triggered ' + DT_ARGS.replace('trigger_time', '{$trigger_time}'), 'bool')})),
         # ---- C06
         dict(name='checkable_get_acknowledgement', func='Checkable::GetAcknowledgement', file='lib/icinga/checkable.cpp', props=['C06'],
              inputs=[('now', 'Z'), ('ack_raw', 'Z'), ('ack_expiry', 'Z')], ret='Z',
